@@ -136,7 +136,7 @@ def downstream(kind, listy=False):
 class C13(Check):
     ID = 'C13'
     LEVEL = 'fault_enumeration'
-    BUDGET = {'quick': 30, 'thorough': 240}
+    BUDGET = {'quick': 75, 'thorough': 240}
     RULE = ('case = (failing operator in map/starmap/filter/scan/scan(reduce), handler in ignore/error.map/router/none placed directly after it, stateful operator downstream '
             '(running sum, distinct, lag, count, none), context: one multiplexed key or group_by with 2-3 interleaved keys, input of n items, fault set F). Fault model: the user '
             'function raises on exactly the items of F. EVERY subset F of EVERY input of n <= 6 (quick) / 8 (thorough) items - first, last, consecutive, all items are among them - '
@@ -169,7 +169,7 @@ class C13(Check):
     def _random(self, rng, tier):
         k = 1500 if tier == 'quick' else 10 ** 7
         for j in range(k):
-            if j % 100 == 50:
+            if j % 100 == 5:
                 # scale: 70-300 interleaved keys (state tables grow beyond their first blocks while some keys only ever failed)
                 n = rng.choice([300, 700])
                 ng = rng.choice([70, 130, 300])
